@@ -201,6 +201,28 @@ func opsOnSelect(s *influxql.SelectStatement, now time.Time) []func() string {
 				_ = s.Sources.String()
 			})
 		},
+		// the protobuf codec of Sources: MarshalBinary returns bytes or an error (a subquery source is an
+		// error since the fix: commit); the bytes decode to sources that print like the original
+		func() string {
+			var res string
+			if p := runOp("Sources.MarshalBinary/UnmarshalBinary", func() {
+				buf, err := s.Sources.MarshalBinary()
+				if err != nil {
+					return
+				}
+				var back influxql.Sources
+				if err := back.UnmarshalBinary(buf); err != nil {
+					res = fmt.Sprintf("Sources.UnmarshalBinary rejects the bytes of MarshalBinary for %q: %v", s.Sources.String(), err)
+					return
+				}
+				if back.String() != s.Sources.String() {
+					res = fmt.Sprintf("Sources codec round trip: %q became %q", s.Sources.String(), back.String())
+				}
+			}); p != "" {
+				return p
+			}
+			return res
+		},
 	}
 	influxql.WalkFunc(s, func(n influxql.Node) {
 		if e, ok := n.(influxql.Expr); ok {
